@@ -458,6 +458,8 @@ def resolve_unwindset(h, build, workdir):
             # <function substring>#<n>: loop number n of the functions whose pretty name contains the substring
             fnpat, num = pat.rsplit("#", 1)
             hit = [lid for lid, desc in ids if lid.endswith("." + num) and fnpat in re.sub(r"<[^<>]*>", "", re.sub(r"<[^<>]*>", "", desc)).replace(" ", "")]
+            if not hit and re.match(r"^[a-z_]+$", fnpat):
+                hit = [f"{fnpat}.{num}"]        # C library builtins (memcmp, memcpy ...) are linked in by CBMC itself
         elif pat.endswith("@outer"):
             # the loop of that function that comes first in the source (its outermost loop), whatever CBMC numbers it
             fn = pat[:-len("@outer")]
@@ -813,6 +815,10 @@ def main():
             else:
                 tests = gen_playback(h, tier, workdir)
                 fail_tests = [t for t in tests if t["kind"] != "cover" and t["name"]]
+                if not fail_tests:
+                    # Kani sometimes emits concrete tests only for the cover witnesses; they are concrete executions of
+                    # the same harness, so one of them failing natively at the assertion is a reproduction as well
+                    fail_tests = [t for t in tests if t["name"]]
                 if not fail_tests:
                     inconclusive.append(f"{h.name}: Kani reported failed checks {idents} but produced no concrete playback test")
                     replays.append(rp)
